@@ -8,7 +8,8 @@ with random amounts per line / per cell:
     comments             a blank cell and free-text cells after the last name on the column-name row (row-wise text)
     termination          end of input | a blank line (+ more rows) | directly the start of another block; optionally
                          preceded by another block
-read through   make_table(grid)   |   parse_blocks(rows)   |   read_csv(StringIO(text), sep) for 5 separators.
+read through   make_table(grid)   |   parse_blocks(rows)   |   read_csv(text, sep) for 5 separators, the text given as a
+StringIO stream or as a file by str / pathlib.Path with "\n", "\r\n" or lone "\r" line endings.
 
 Oracle (no Lean model involved): the table read from the rewritten input equals the table read from the plain
 row-wise text of the same table value by the same API — Table.equals both ways plus explicit comparison of name,
@@ -18,6 +19,11 @@ well-formedness predicates wf / wfT / blockShaped and "the splitter delivers the
 reader on the rewritten input vs Lean makeTable / parseBlocks.
 """
 import io
+import os
+import pathlib
+import shutil
+import tempfile
+import unicodedata
 import zlib
 import logging
 import warnings
@@ -60,7 +66,8 @@ EXTRA = {
 }
 
 BLANKS = ["", "", " ", "  ", "\t", " \t", " ", "  "]
-NAME_ALPHA = rc.NAME_ALPHA + [":", "*", "é", "k"]
+# decomposed sequences (e + combining acute, a + combining ring, Hangul jamo): names must come back as written
+NAME_ALPHA = rc.NAME_ALPHA + [":", "*", "é", "k", "e\u0301", "a\u030a", "\u1100\u1161"]
 COMMENTS = ["comment", "more", "**x", "", " ", "k:", "1.5", ":::t", "-"]
 
 
@@ -97,7 +104,10 @@ def gen_tv(rng, native, illformed=None, zero_cols=False):
     names = []
     while len(names) < n_col:
         nm = rc.rand_text(rng, NAME_ALPHA, 1, 4).strip()
-        if nm and nm not in names and row_kind([nm]) == "plain" and row_kind([" " + nm + " "]) == "plain":
+        # distinct also as Python identifiers (NFKC): Table.equals goes through DataFrame.itertuples(), which cannot
+        # build its namedtuple for two names that differ only in composed / decomposed form (a C14 matter, reported)
+        if nm and nm not in names and row_kind([nm]) == "plain" and row_kind([" " + nm + " "]) == "plain" and \
+                unicodedata.normalize("NFKC", nm) not in [unicodedata.normalize("NFKC", x) for x in names]:
             names.append(nm)
     units = [rc.unit_for(rng, k) for k in kinds]
 
@@ -308,7 +318,23 @@ def csv_text(stream, sep):
     return text, rows
 
 
-def impl_read_csv(text, sep):
+_FILE_NO = [0]
+
+
+def csv_source(text, route):
+    """what is handed to read_csv: a text stream, or the path (str / pathlib.Path) of a file holding the text with
+    the route's line ending ("\n", "\r\n" or a lone "\r": a file opened by path is read with universal newlines, so
+    the same rows must arrive)"""
+    if route is None or route["kind"] == "stream":
+        return io.StringIO(text)
+    _FILE_NO[0] += 1
+    path = os.path.join(route["tmp"], f"t{_FILE_NO[0] % 50}.csv")
+    with open(path, "wb") as f:
+        f.write(text.replace("\n", route["eol"]).encode("utf-8"))
+    return path if route["kind"] == "str" else pathlib.Path(path)
+
+
+def impl_read_csv(text, sep, route=None):
     """read_csv itself on the text, canonicalised like blocks_common.impl_parse_blocks"""
     from pdtable import read_csv
     from pdtable.table_origin import InputError
@@ -316,7 +342,7 @@ def impl_read_csv(text, sep):
     try:
         with warnings.catch_warnings():
             warnings.simplefilter("ignore")
-            for bt, val in read_csv(io.StringIO(text), sep=sep):
+            for bt, val in read_csv(csv_source(text, route), sep=sep):
                 first = None
                 try:
                     first = val.metadata.origin.input_location.row
@@ -331,7 +357,7 @@ def impl_read_csv(text, sep):
     return {"blocks": blocks, "issues": issues, "ending": ending}
 
 
-def read_tables(mode, stream, sep):
+def read_tables(mode, stream, sep, route=None):
     """-> (rows the block parser must receive, [(origin row, Table)] | {'exc': cls})"""
     from pdtable import read_csv
     from pdtable.io.parsers.blocks import parse_blocks
@@ -343,7 +369,7 @@ def read_tables(mode, stream, sep):
             warnings.simplefilter("ignore")
             if mode == "read_csv":
                 text, seen = csv_text(stream, sep)
-                it = read_csv(io.StringIO(text), sep=sep)
+                it = read_csv(csv_source(text, route), sep=sep)
             else:
                 it = parse_blocks(iter([list(r) for r in stream]))
             for bt, val in it:
@@ -388,8 +414,15 @@ def same_table(a, b):
 
 # ---------------------------------------------------------------------------------------------- run
 
-def one_case(rng, out, seed, idx, ops, pend, model_ok):
+def one_case(rng, out, seed, idx, ops, pend, model_ok, tmp=None):
     mode = rng.choice(["make_table", "parse_blocks", "read_csv", "read_csv"])
+    route = None
+    if mode == "read_csv":
+        kind = rng.choice(["stream", "stream", "str", "path"])
+        route = {"kind": kind, "eol": "\n" if kind == "stream" else rng.choice(["\n", "\r\n", "\r\n", "\r"]),
+                 "tmp": tmp}
+        if tmp is None:
+            route = {"kind": "stream", "eol": "\n", "tmp": None}
     native = mode != "read_csv" and rng.random() < 0.5
     ill = rng.choice(["blank_row", "star_name", "untrimmed", "blank_name", "ragged", "no_cols"]) \
         if rng.random() < 0.08 else None
@@ -412,7 +445,10 @@ def one_case(rng, out, seed, idx, ops, pend, model_ok):
             out.count("skipped:no_free_separator")
             return
         sep = rng.choice(free)
+    if route is not None:
+        out.count("csv_source:" + route["kind"] + ":" + {"\n": "LF", "\r\n": "CRLF", "\r": "CR"}[route["eol"]])
     case = {"seed": seed, "index": idx, "mode": mode, "sep": sep, "table": tv_json(t), "layout": lay,
+            "source": None if route is None else [route["kind"], route["eol"]],
             "steps": [step_json(s) for s in steps], "pre": grid_to_json(pre), "end": end_json(end)}
     is_wf, is_wft, is_wf0 = wf(t), wf_t(t), wf0(t)
     shaped = block_shaped(g)
@@ -443,7 +479,8 @@ def one_case(rng, out, seed, idx, ops, pend, model_ok):
     if mode == "make_table":
         base = make_table(plain)
     else:
-        _, tabs = read_tables(mode, plain, sep)
+        # the plain text goes the same way (stream / str path / Path), with "\n" line endings
+        _, tabs = read_tables(mode, plain, sep, None if route is None else dict(route, eol="\n"))
         base = tabs if isinstance(tabs, dict) else (tabs[0][1] if len(tabs) == 1 else {"exc": "not-one-table"})
     if isinstance(base, dict):
         out.count("skipped:plain_text_does_not_parse:" + base["exc"])     # e.g. out-of-range timestamp: not WF
@@ -456,7 +493,7 @@ def one_case(rng, out, seed, idx, ops, pend, model_ok):
         got = make_table(g)
         seen = None
     else:
-        seen, tabs = read_tables(mode, stream, sep)
+        seen, tabs = read_tables(mode, stream, sep, route)
         if isinstance(tabs, dict):
             got = tabs
         else:
@@ -484,7 +521,7 @@ def one_case(rng, out, seed, idx, ops, pend, model_ok):
         else:
             # read_csv on the text vs the model on the rows of the generated stream (not on a re-split of the text):
             # a change to how read_csv cuts lines into cells shows up here as a mismatch
-            impl = impl_read_csv(csv_text(stream, sep)[0], sep) if mode == "read_csv" else \
+            impl = impl_read_csv(csv_text(stream, sep)[0], sep, route) if mode == "read_csv" else \
                 bc.impl_parse_blocks(seen, to="pdtable")
             ops.append(bc.model_op(seen, to="pdtable"))
             pend.append(("parse_blocks", case, impl))
@@ -501,7 +538,8 @@ def run(tier, seed, model_ok, translator, search=False, _limit=None):
     out.rule = ("table values well formed in both layouts (0-4 columns — 6% column-less tables — of text / onoff / datetime / numeric spellings, "
                 "0-5 rows, text or native cells) x layout x random subset of {toTransposed, header blanks, comments, "
                 "trailing cells} in random order with random amounts x termination {eof, blank line, next block} x "
-                "optional preceding block, through make_table / parse_blocks / read_csv (5 separators); 8% deliberately "
+                "optional preceding block, through make_table / parse_blocks / read_csv (5 separators; stream, or file by str / Path "
+                "with LF / CRLF / CR line endings, the plain text always LF); 8% deliberately "
                 "ill-formed tables for the predicate comparison only. Non-trivial: at least one rewrite applied; "
                 "distinct by (mode, table, rewrites).")
     rng = make_rng(seed, "C10")
@@ -511,8 +549,12 @@ def run(tier, seed, model_ok, translator, search=False, _limit=None):
     if _limit is not None:
         n = _limit
     ops, pend = [], []
-    for idx in range(n):
-        one_case(rng, out, seed, idx, ops, pend, model_ok)
+    tmp = tempfile.mkdtemp(prefix="c10-")
+    try:
+        for idx in range(n):
+            one_case(rng, out, seed, idx, ops, pend, model_ok, tmp)
+    finally:
+        shutil.rmtree(tmp, ignore_errors=True)
     if model_ok and ops:
         for (what, case, impl), ans in zip(pend, common.run_model(ops)):
             if isinstance(ans, dict) and "error" in ans:
